@@ -22,7 +22,8 @@ U1, U2, U3 = "urn:u1", "urn:u2", "urn:u3"
 
 TEXTS = [None, "x", " x ", "x  y", "   ", "\t", "\xa0", " \xa0 ", "\n    ", "\n x \n", "&lt;&amp;&#233;", "<![CDATA[<x> ]]>",
          "a<![CDATA[ b ]]> c", "  \n", "\n  ", " \n ", "x\n\ty", "\xa0x", "\r\n", "x\ny", "x\ty z", " a b\tc\nd ",
-         "<![CDATA[write &lt; for less]]>", "AT&amp;amp;T", "&amp;gt; x &amp;#38;"]
+         "<![CDATA[write &lt; for less]]>", "AT&amp;amp;T", "&amp;gt; x &amp;#38;",
+         "<![CDATA[t\u00e9 < 5 \u00b0C \U0001F600]]>", "\u00e9\U0001F600&#176;"]
 ATTRS = [["k", "v"], ["k", "a b"], ["k", "&lt;&amp;&quot;"], ["k", ""], ["k", " x "], ["k", "it's &quot;q&quot;"],
          ["xml:lang", "en"], ["xml:space", "preserve"]]
 OPTIONS = [(clean, collapse, lit) for clean in (True, False) for collapse in (True, False)
